@@ -38,6 +38,11 @@ POLLUTERS = {
     'mutate-number-literal': '如何取？\n    输出 3\n令X设为（取）\n以X（自增：5）\n令Y设为7\n以Y（自减：7）\n',
     'mutate-text-literal': '如何文？\n    输出 “1*^3”\n令T设为（文）\n令N设为以T（转换数值）\n',
     'mutate-length-and-chars': '令L设为【1，2】之长度\n以L（自增：9）\n令C设为“ab”之字符组\n以C（后增：“z”）\n令K设为【a = 1】之所有索引\n以K（后增：“z”）\n',
+    'syntax-error-late': '令甲设为1\n令乙设为【1，2\n令丙设为3\n',
+    'syntax-error-in-block': '如何坏？\n    输出 1 +\n（坏）\n',
+    'http-request-headers-in-place': '导入《@验证HTTP》\n令请求设为（新建HTTP请求：“POST”、“http://a.example/x”、【“用户” = “甲”】）\n请求之头部#“Authorization” = “令牌”\n令二设为（新建HTTP请求：“POST”、“http://a.example/y”、“文本体”）\n二之头部#“X” = “1”\n',
+    'http-response-in-place': '导入《@验证HTTP》\n令答设为（新建HTTP响应：200、“好”、【“K” = “1”】）\n答之头部#“Set-Cookie” = “a=1”\n',
+    'redefine-library-class-ctor': '导入《@验证HTTP》\n如何新建HTTP响应？\n    输入码\n    （显示：“劫持”）\n令答设为（新建HTTP响应：200）\n',
     'mutate-list-literal-in-method': '如何列？\n    输出【1，2】\n令A设为（列）\n以A（后增：3）\n',
 }
 PROBES = {
@@ -50,6 +55,8 @@ PROBES = {
     'error-chain': '如何深？\n    输出 1 / 0\n（深）\n',
     'this-at-top': '输出 其名\n',
     'truth': '输出【真，假，空】\n',
+    'http-request': '导入《@验证HTTP》\n令甲设为（新建HTTP请求：“POST”、“http://b.example/r”、【“数” = 1】）\n令乙设为（新建HTTP请求：“POST”、“http://b.example/t”、“体”）\n令丙设为（新建HTTP请求：“GET”、“http://b.example/g”）\n输出【甲之头部，乙之头部，丙之头部】\n',
+    'http-response': '导入《@验证HTTP》\n令答设为（新建HTTP响应：201、“好”、【“K” = “1”】）\n输出【答之状态码，答之头部】\n',
     'loop-indices': '令和设为0\n令出设为【】\n以序、项遍历【5，6，7】：\n    和 = 和 + 序\n    以出（后增：项）\n输出【和，出】\n',
     'dict-loop-keys': '令出设为【】\n以键、值遍历【“1*^3” = 1，b = 2】：\n    以出（后增：键）\n输出 出\n',
     'literals': '如何取？\n    输出 3\n如何文？\n    输出 “1*^3”\n如何列？\n    输出【1，2】\n输出【（取），7，（文），（列），【1，2】之长度，“ab”之字符组，【a = 1】之所有索引】\n',
@@ -61,6 +68,7 @@ REEXEC = {
     'grow-list-literal': '令L设为【1】\n以L（后增：2）\n输出 L\n',
     'declare-and-count': '令N设为0\n每当N < 3：\n    N = N + 1\n输出 N\n',
     'bump-loop-index': '令和设为0\n以序、项遍历【5，6，7】：\n    以序（自增：10）\n    和 = 和 + 序\n输出 和\n',
+    'literal-with-escapes': '令文设为“a`SP`b`U+4E2D`c`CRLF`d”\n令引设为“左`“`右”\n输出【文，引】\n',
     'object-default': '定义狗：\n    其名设为【1】\n令D设为（新建狗）\n以D之名（后增：2）\n输出 D之名\n',
 }
 
